@@ -29,6 +29,8 @@ EXTENDS Naturals, Sequences, FiniteSets
 
 CONSTANT StrictCmdline    \* TRUE: the reader of cmd_line.txt raises on a file without its sections
                           \* (torn file); FALSE: it treats a torn file as "no options recorded"
+CONSTANT FirstRunReadsCmdline  \* TRUE: a first configuration (no coredata.dat) also takes the machine files
+                          \* recorded in cmd_line.txt; FALSE: only its -D options
 
 -----------------------------------------------------------------------------
 (* File contents.                                                           *)
@@ -97,7 +99,7 @@ Apply(fs, ops, i) ==
          [] OTHER -> fs
 
 -----------------------------------------------------------------------------
-(* Scripts: [kind, fresh, failed, pre, ops]                                 *)
+(* Scripts: [kind, fresh, failed, usesM, usesE, pre, ops]                   *)
 (*   kind    setup | reconfigure | configure | wipe                         *)
 (*   fresh   the directory was not configured before (old values = the     *)
 (*           defaults)                                                      *)
@@ -131,29 +133,44 @@ Run(sc, k) == IF k = 0 THEN PreState(sc) ELSE Apply(Run(sc, k - 1), sc.ops, k)
 (*     give up ("try --wipe").                                              *)
 (*  3. cmd_line.txt, when it exists, is read in every case (it feeds the    *)
 (*     first configuration); a torn file makes a strict reader raise.       *)
-(* Result: ok, whether --reconfigure applies, and the generation of option  *)
-(* values the directory ends with ("default": nothing recorded survived).   *)
+(* Option values live in three places, hence three classes of options:     *)
+(*   d  given with -D: in coredata.dat and in cmd_line.txt [options]        *)
+(*   m  set by a machine file (--native-file): in coredata.dat; cmd_line.txt *)
+(*      [properties] only records *which* files                             *)
+(*   e  taken from the environment of the first run: only in coredata.dat   *)
+(* Result: ok, whether --reconfigure applies, and per class the generation  *)
+(* of values the directory ends with ("default": nothing recorded survived).*)
 
-Out(ok, reconf, ver, why) == [ok |-> ok, reconf |-> reconf, ver |-> ver, why |-> why]
+Out(ok, reconf, vd, vm, ve, why) == [ok |-> ok, reconf |-> reconf, vd |-> vd, vm |-> vm, ve |-> ve, why |-> why]
 
 RecoverOutcome(fs) ==
     LET c == fs[Core]
         l == fs[Cmdl]
         reconf == c.st # "absent"
         recorded == IF l.st = "full" THEN l.ver ELSE "default"
-    IN IF Torn(l) /\ StrictCmdline THEN Out(FALSE, reconf, "none", "cmdline-unreadable")
-       ELSE IF c.st = "full" THEN Out(TRUE, TRUE, c.ver, "coredata")
-       ELSE IF c.st = "absent" THEN Out(TRUE, FALSE, recorded, IF l.st = "full" THEN "cmdline" ELSE "first")
-       ELSE IF l.st = "absent" THEN Out(FALSE, TRUE, "none", "coredata-unreadable")
-       ELSE Out(TRUE, TRUE, recorded, "regenerated")
+    IN IF Torn(l) /\ StrictCmdline THEN Out(FALSE, reconf, "none", "none", "none", "cmdline-unreadable")
+       ELSE IF c.st = "full" THEN Out(TRUE, TRUE, c.ver, c.ver, c.ver, "coredata")
+       ELSE IF c.st = "absent"
+            THEN Out(TRUE, FALSE, recorded, IF FirstRunReadsCmdline THEN recorded ELSE "default", "default",
+                     IF l.st = "full" THEN "cmdline" ELSE "first")
+       ELSE IF l.st = "absent" THEN Out(FALSE, TRUE, "none", "none", "none", "coredata-unreadable")
+       ELSE Out(TRUE, TRUE, recorded, recorded, "default", "regenerated")
 
-ValueAllowed(sc, ver) == ver \in {"old", "new"} \/ (ver = "default" /\ sc.fresh)
+\* scripts say which classes carry a non-default value (usesM, usesE; class d always does)
+GenAllowed(sc, v) == v \in {"old", "new"} \/ (v = "default" /\ sc.fresh)
+ValueAllowed(sc, o) == /\ GenAllowed(sc, o.vd)
+                       /\ sc.usesM => GenAllowed(sc, o.vm)
+                       /\ sc.usesE => GenAllowed(sc, o.ve)
+\* the classes whose values are lost (for reports)
+Lost(sc, o) == (IF ~GenAllowed(sc, o.vd) THEN <<"d">> ELSE <<>>)
+               \o (IF sc.usesM /\ ~GenAllowed(sc, o.vm) THEN <<"m">> ELSE <<>>)
+               \o (IF sc.usesE /\ ~GenAllowed(sc, o.ve) THEN <<"e">> ELSE <<>>)
 
 -----------------------------------------------------------------------------
 (* The laws, as predicates of a script and the state after a prefix.        *)
 
 Recoverable(fs)        == RecoverOutcome(fs).ok
-ValuesOldOrNew(sc, fs) == RecoverOutcome(fs).ok => ValueAllowed(sc, RecoverOutcome(fs).ver)
+ValuesOldOrNew(sc, fs) == RecoverOutcome(fs).ok => ValueAllowed(sc, RecoverOutcome(fs))
 \* core data and build.ninja go through a temporary name: the installed name is never torn
 CoreNeverTorn(fs)      == ~Torn(fs[Core])
 NinjaNeverTorn(fs)     == Ninja \in DOMAIN fs => ~Torn(fs[Ninja])
@@ -182,7 +199,7 @@ Verdict(sc, k, fs) ==
 CONSTANT Scripts            \* the set of scripts
 VARIABLES sc, pc, fs, phase, out
 vars == <<sc, pc, fs, phase, out>>
-NoOut == Out(TRUE, FALSE, "none", "")
+NoOut == Out(TRUE, FALSE, "none", "none", "none", "")
 
 Init == /\ sc \in Scripts
         /\ pc = 0
@@ -211,7 +228,7 @@ Next == Step \/ Crash \/ Recover
 Spec == Init /\ [][Next]_vars
 
 InvRecoverable    == phase = "recovered" => out.ok
-InvValuesOldOrNew == (phase = "recovered" /\ out.ok) => ValueAllowed(sc, out.ver)
+InvValuesOldOrNew == (phase = "recovered" /\ out.ok) => ValueAllowed(sc, out)
 InvCoreNeverTorn  == CoreNeverTorn(fs)
 InvNinjaNeverTorn == NinjaNeverTorn(fs)
 InvCoreDurable    == CoreDurable(fs)
